@@ -22,6 +22,50 @@ SELF = (r'\bself\(\)', '(*self)', 'self()')
 HINT = (r'\bhint\b', '(*hint_p)', 'hint_ref')
 K = (r'\bStrategy::K\b', 'XV_K', 'Strategy::K')
 
+
+# ---- runs: every K is its own run (shape-complete: loops over the K slots are unwound completely, unwinding assertions on) ----
+def kruns(rid, entry, mode='SEQ', extra=None, cls='shape-complete', note=''):
+    out = []
+    for k in (1, 2, 3, 5, 8):
+        d = {'XV_K': k}; d.update(extra or {})
+        out.append(dict(id='%s_k%d' % (rid, k), entry=entry, mode=mode, defs=d, unwind=k + 2, cls=cls,
+                        tiers=['thorough'] if k == 8 else ['quick', 'thorough'], note=note or 'K=%d slots; loops over slots unwound K+1 times with unwinding assertions' % k))
+    return out
+RUNS = [dict(id='slot', entry='h_slot', defs={'XV_K': 3}, unwind=5, cls='unbounded', note='slot word operations are loop-free; K only sizes the monitor arrays')]
+RUNS += kruns('init', 'h_init') + kruns('alloc', 'h_alloc') + kruns('gops', 'h_gops') + kruns('acq', 'h_acq', note='SEQ view of acquire/acquire_if_equal (retry loop cut)') + kruns('acq_int', 'h_acq', mode='INT', note='INT: source cell rewritten arbitrarily before every atomic access; retry loop cut by invariant ACQ')
+OBL = {
+  'hp.slot.roundtrip': dict(deciding=True, text='set_object(o): not a link, try_get_object yields o; set_link(l): is_link, get_link()==l, try_get_object fails and leaves result untouched; no other slot written'),
+  'hp.sync.orders': dict(deciding=True, text='sync precondition: set_object stores release-or-stronger and is followed by a seq_cst fence; set_link stores release-or-stronger; the validating load of acquire uses the caller\'s order'),
+  'hp.initialize.all_free': dict(deciding=True, text='initialize_block from arbitrary slot contents yields the chain 0->1->...->K-1->null: Inv_K with all K slots free'),
+  'hp.alloc.k_available': dict(deciding=True, text='chain non-empty => alloc returns the head slot, unlinked, nothing else changed, Inv_K kept; a new thread gets K distinct slots from K successive allocations; a guard operation throws only if it needs a slot for a non-null pointer and none is free'),
+  'hp.alloc.exhausted_throws': dict(deciding=True, text='chain empty => bad_hazard_pointer_alloc, no slot, hint or guard changed'),
+  'hp.release.returns_slot': dict(deciding=True, text='release puts the slot at the head of the chain with the link tag (Inv_K, one more free slot), nulls the handle; releasing a null handle changes nothing'),
+  'hp.guard_ops.preserve_inv': dict(deciding=True, text='Inv_K and the guard invariant GI (non-null pointer => own slot holds it) after every operation on every exit, slots of other guards untouched'),
+}
+OBL.update({
+  'hp.guard_ops.empty_holds_no_slot': dict(deciding=True, text='GI2: a guard whose get() is null holds no slot after any operation (given it held before) - needed for "K simultaneously protecting guards"'),
+  'hp.ctor.protects': dict(deciding=True, text='guard_ptr(p) / copy construction: value p; non-null => the head slot of the chain is taken and publishes p.get(); null => no slot taken, nothing changed'),
+  'hp.copy.shares': dict(deciding=True, text='copy construction / copy assignment: both guards hold the same value, the source and its slot are unchanged, and the copy publishes the object in a slot of its own'),
+  'hp.move.empties_source': dict(deciding=True, text='move construction / move assignment: the target takes over value and slot, the source is empty and holds no slot, no slot word changes'),
+  'hp.self_assign.noop': dict(deciding=True, text='self copy-/move-assignment changes nothing and returns *this'),
+  'hp.reset.releases': dict(deciding=True, text='reset / destructor: guard empty, no slot; other guard untouched'),
+  'hp.reset.idempotent': dict(deciding=True, text='a second reset changes nothing'),
+  'hp.swap.exchanges': dict(deciding=True, text='swap exchanges value and slot of the two guards, no slot word changes; self swap is a no-op'),
+  'hp.reclaim.retires_and_resets': dict(deciding=True, text='reclaim(d): set_deleter(d) and add_retired_node exactly once on the formerly guarded object, guard reset (slot returned), scan iff the threshold is reached'),
+})
+OBL.update({
+  'hp.acquire.snapshot': dict(deciding=True, text='[INT] the guard\'s value after acquire is the value returned by the last load of the source during the call'),
+  'hp.acquire.validated': dict(deciding=True, text='[INT] on return with a non-null pointer: store(slot,obj) precedes a seq_cst fence which precedes the load of the source that returned obj, and the slot was not stored to afterwards (or the guard already protected obj and nothing was written)'),
+  'hp.acquire_if_equal.iff': dict(deciding=True, text='[INT] acquire_if_equal returns true exactly when the last loaded value equals expected (then the guard holds it); false leaves the guard empty with its slot returned'),
+})
+CANARIES = ['acq.throw', 'aie.throw', 'acq.kept', 'acq.protect_new', 'acq.marked_null', 'acq.null', 'aie.true', 'aie.true_null', 'aie.false_first', 'aie.false_changed', 'aie.false_changed_released',
+  'gops.ctor_throw', 'gops.copy_ctor_throw', 'gops.copy_assign_throw', 'gops.ctor_protect', 'gops.ctor_null', 'gops.copy_ctor_protect', 'gops.copy_ctor_empty',
+  'gops.move_ctor_held', 'gops.move_ctor_empty', 'gops.copy_assign_reuse', 'gops.copy_assign_alloc', 'gops.copy_assign_from_empty', 'gops.copy_assign_both_empty',
+  'gops.self_copy', 'gops.self_move', 'gops.move_assign_releases', 'gops.move_assign_plain', 'gops.reset_held', 'gops.dtor_held', 'gops.reset_empty', 'gops.reset_twice',
+  'gops.swap_both', 'gops.swap_one', 'gops.reclaim_scan', 'gops.reclaim',
+  'slot.object', 'slot.link', 'slot.link_null', 'init.block', 'init.k_allocs', 'alloc.from_chain', 'alloc.first_of_thread', 'alloc.exhausted',
+            'release.held', 'release.null_uninit', 'release.null']
+
 UNIT = dict(
   title='hazard_pointer: slots, static/dynamic slot allocation, guard_ptr operations (C18, C15 guard part, C01 protect side)',
   properties=['C18', 'C15', 'C01'],
@@ -120,7 +164,8 @@ UNIT = dict(
          members=['control_block', 'hint'], methods={'acquire_entry': 'TBL_acquire_entry', 'initialize': 'CB_initialize'},
          must_fire={'method:acquire_entry': 1, 'method:initialize': 1}),
   ],
-  runs=[],
-  obligations={},
-  canaries=[],
+  runs=RUNS,
+  obligations=OBL,
+  loop_obligation={'ACQ': 'hp.guard_ops.preserve_inv'},
+  canaries=CANARIES,
 )
